@@ -10,6 +10,7 @@ import (
 	"net/http"
 	"net/url"
 	"strings"
+	"sync"
 	"syscall"
 	"time"
 
@@ -249,8 +250,7 @@ func NewUpstream(addr string, opt Opt) (_ Upstream, err error) {
 			quicConfig := newDefaultClientQuicConfig()
 			quicConfig.MaxIdleTimeout = idleConnTimeout
 
-			addonCloser = quicTransport
-			t = &http3.RoundTripper{
+			h3rt := &http3.RoundTripper{
 				TLSClientConfig: opt.TLSConfig,
 				QuicConfig:      quicConfig,
 				Dial: func(ctx context.Context, _ string, tlsCfg *tls.Config, cfg *quic.Config) (quic.EarlyConnection, error) {
@@ -262,10 +262,19 @@ func NewUpstream(addr string, opt Opt) (_ Upstream, err error) {
 				},
 				MaxResponseHeaderBytes: 4 * 1024,
 			}
+			t = h3rt
+			// quic.Transport.Close() does not close a socket that it did not create.
+			addonCloser = multiCloser{h3rt, quicTransport, conn}
 		} else {
+			// http.Transport cannot close its busy connections. Track them here.
+			tracker := newConnTracker()
 			t1 := &http.Transport{
 				DialContext: func(ctx context.Context, network, addr string) (net.Conn, error) {
-					return dialer.DialContext(ctx, dialNetworkTcpOrUnix(dialAddr), dialAddr)
+					c, err := dialer.DialContext(ctx, dialNetworkTcpOrUnix(dialAddr), dialAddr)
+					if err != nil {
+						return nil, err
+					}
+					return tracker.track(c)
 				},
 				TLSClientConfig:     opt.TLSConfig,
 				TLSHandshakeTimeout: tlsHandshakeTimeout,
@@ -285,6 +294,7 @@ func NewUpstream(addr string, opt Opt) (_ Upstream, err error) {
 			t2.ReadIdleTimeout = time.Second * 30
 			t2.PingTimeout = time.Second * 5
 			t = t1
+			addonCloser = tracker
 		}
 		opt := transport.DoHTransportOpts{
 			EndPointUrl:  addrURL.String(),
@@ -355,13 +365,90 @@ func NewUpstream(addr string, opt Opt) (_ Upstream, err error) {
 			}
 			return c, nil
 		}
-		return transport.NewQuicTransport(transport.QuicTransportOpts{
-			DialContext: dialQuicConn,
-			Logger:      logger,
-		}), nil
+		return &quicUpstream{
+			QuicTransport: transport.NewQuicTransport(transport.QuicTransportOpts{
+				DialContext: dialQuicConn,
+				Logger:      logger,
+			}),
+			// quic.Transport.Close() does not close a socket that it did not create.
+			closer: multiCloser{t, uc},
+		}, nil
 	default:
 		return nil, fmt.Errorf("unsupported protocol [%s]", addrURL.Scheme)
 	}
+}
+
+// quicUpstream closes the quic transport and its socket along with the QuicTransport.
+type quicUpstream struct {
+	*transport.QuicTransport
+	closer io.Closer
+}
+
+func (u *quicUpstream) Close() error {
+	u.QuicTransport.Close()
+	u.closer.Close()
+	return nil
+}
+
+// multiCloser closes all its closers. It always returns nil.
+type multiCloser []io.Closer
+
+func (cs multiCloser) Close() error {
+	for _, c := range cs {
+		c.Close()
+	}
+	return nil
+}
+
+// connTracker keeps track of open connections so that all of them, idle
+// or busy, can be closed at once. Connections tracked after Close() will be
+// closed immediately.
+type connTracker struct {
+	m      sync.Mutex
+	closed bool
+	conns  map[*trackedConn]struct{}
+}
+
+func newConnTracker() *connTracker {
+	return &connTracker{conns: make(map[*trackedConn]struct{})}
+}
+
+func (t *connTracker) track(c net.Conn) (net.Conn, error) {
+	tc := &trackedConn{Conn: c, t: t}
+	t.m.Lock()
+	if t.closed {
+		t.m.Unlock()
+		c.Close()
+		return nil, transport.ErrClosedTransport
+	}
+	t.conns[tc] = struct{}{}
+	t.m.Unlock()
+	return tc, nil
+}
+
+// Close always returns nil.
+func (t *connTracker) Close() error {
+	t.m.Lock()
+	t.closed = true
+	conns := t.conns
+	t.conns = nil
+	t.m.Unlock()
+	for c := range conns {
+		c.Conn.Close()
+	}
+	return nil
+}
+
+type trackedConn struct {
+	net.Conn
+	t *connTracker
+}
+
+func (c *trackedConn) Close() error {
+	c.t.m.Lock()
+	delete(c.t.conns, c)
+	c.t.m.Unlock()
+	return c.Conn.Close()
 }
 
 type udpWithFallback struct {
